@@ -521,8 +521,10 @@ class Check(object):
             "coverage": cov, "assumptions": list(mod.ASSUMPTIONS),
             "wall_s": round(time.time() - self.t0, 2), "violations": violations,
         }
-        os.makedirs(os.path.join(ROOT, "evidence"), exist_ok=True)
-        with open(os.path.join(ROOT, "evidence", self.id + ".json"), "w") as f:
+        # a run against another checkout (mutation trial) must not overwrite the evidence of the real tree
+        evdir = os.path.join(ROOT, "replays", "trial-evidence") if os.environ.get("CLIKIT_REPO") else os.path.join(ROOT, "evidence")
+        os.makedirs(evdir, exist_ok=True)
+        with open(os.path.join(evdir, self.id + ".json"), "w") as f:
             json.dump(ev, f, indent=1, ensure_ascii=False, sort_keys=True, default=str)
 
     def run(self):
